@@ -17,12 +17,12 @@ type FormSpec struct {
 	OuterTOS     uint8  `json:"outer_tos,omitempty"`
 	OuterID      uint16 `json:"outer_id,omitempty"`
 	OuterDF      bool   `json:"outer_df,omitempty"`
-	QTTL         int    `json:"q_ttl,omitempty"`    // 0 keep, 1 => quoted TTL 1, 2 => quoted TTL 0
-	QCsum        string `json:"q_csum,omitempty"`   // "" recompute | stale
-	QTOS         int    `json:"q_tos,omitempty"`    // 0 keep, else value
-	QUDPCsumZero bool   `json:"q_udp0,omitempty"`   // quoted UDP checksum zeroed
-	Kind         string `json:"kind,omitempty"`     // "" ttl-exceeded | unreach-port | unreach-host | unreach-admin
-	NAT          bool   `json:"nat,omitempty"`      // quoted source address/port rewritten by a NAT
+	QTTL         int    `json:"q_ttl,omitempty"`     // 0 keep, 1 => quoted TTL 1, 2 => quoted TTL 0
+	QCsum        string `json:"q_csum,omitempty"`    // "" recompute | stale
+	QTOS         int    `json:"q_tos,omitempty"`     // 0 keep, else value
+	QUDPCsumZero bool   `json:"q_udp0,omitempty"`    // quoted UDP checksum zeroed
+	Kind         string `json:"kind,omitempty"`      // "" ttl-exceeded | unreach-port | unreach-host | unreach-admin
+	NAT          bool   `json:"nat,omitempty"`       // quoted source address/port rewritten by a NAT
 	ICMPCode     int    `json:"icmp_code,omitempty"` // don't-care perturbation: other code on time-exceeded
 }
 
@@ -78,13 +78,16 @@ type HopSpec struct {
 	// AckLost (SACK): the probe reaches the target and is recorded by its receiver, but the
 	// duplicate ACK is lost; the byte is only reported inside the SACK blocks of later ACKs
 	AckLost bool `json:"ack_lost,omitempty"`
+	// LinkPad: the reply is delivered the way an Ethernet NIC hands over a short frame: padded with zero bytes
+	// to the 46-byte minimum payload (the capture handle returns everything after the Ethernet header)
+	LinkPad bool `json:"link_pad,omitempty"`
 }
 
 // FlowScript is the behaviour of the network for one flow.
 type FlowScript struct {
 	DestDist int             `json:"dest_dist"` // lowest TTL that reaches the target, 0 = unreachable
 	Default  HopSpec         `json:"default"`
-	Hops     map[int]HopSpec `json:"hops,omitempty"` // by TTL
+	Hops     map[int]HopSpec `json:"hops,omitempty"`      // by TTL
 	AddrKind string          `json:"addr_kind,omitempty"` // "" public | private | mix
 	Addrs    map[int]string  `json:"addrs,omitempty"`     // explicit responder address by TTL
 }
@@ -98,10 +101,10 @@ func (s *FlowScript) Hop(ttl int) HopSpec {
 
 // NoiseItem is an extra packet derived from the probe with TTL Anchor.
 type NoiseItem struct {
-	Anchor  int    `json:"anchor"`   // TTL of the probe whose emission triggers it
-	DelayUs int64  `json:"delay_us"` // from that emission
-	Kind    string `json:"kind"`
-	Arg     int    `json:"arg,omitempty"`
+	Anchor  int      `json:"anchor"`   // TTL of the probe whose emission triggers it
+	DelayUs int64    `json:"delay_us"` // from that emission
+	Kind    string   `json:"kind"`
+	Arg     int      `json:"arg,omitempty"`
 	Form    FormSpec `json:"form"`
 }
 
